@@ -63,6 +63,13 @@ def derive(trace, offset):
             prev = e
             break
     d = {"prev_call": prev or {}, "self_rename_of_file": False}
+    # C13 directory schedules: did an entry-adding call and Remove of its target directory both succeed?
+    calls = [e for e in trace if e.get("ev") == "call" and e.get("w", 0) > 0]
+    d["into_dir_and_remove_both_ok"] = bool(
+        len(calls) == 2 and all(c.get("ok") for c in calls)
+        and any(c.get("op") == "remove" for c in calls)
+        and any(c.get("op") in ("rename", "mkdir", "open") and (c.get("q") or c.get("p"))[:-1] == r.get("p")
+                for c in calls for r in calls if r.get("op") == "remove"))
     if prev and prev.get("ev") == "rename" and prev.get("ok") and prev.get("p") == prev.get("q"):
         # was p a regular file in the last snapshot before the call?
         idx = trace.index(prev)
